@@ -92,14 +92,7 @@ func (fr *frame) get(key ssa.Value) value {
 	case *ssa.Const:
 		return fr.in.constValue(key)
 	case *ssa.Global:
-		if r, ok := fr.in.globals[key]; ok {
-			return r
-		}
-		// lazily materialise globals of packages whose init was skipped
-		z := fr.in.zero(deref(key.Type()))
-		p := &z
-		fr.in.globals[key] = p
-		return p
+		return fr.in.globalAddr(key)
 	}
 	if i, ok := fr.fi.idx[key]; ok {
 		v := fr.env[i]
@@ -125,6 +118,18 @@ func deref(t types.Type) types.Type {
 }
 
 func (in *Interp) constValue(c *ssa.Const) value {
+	if v, ok := in.constCache[c]; ok {
+		return v
+	}
+	v := in.constValue1(c)
+	switch v.(type) {
+	case *Term, Str:
+		in.constCache[c] = v
+	}
+	return v
+}
+
+func (in *Interp) constValue1(c *ssa.Const) value {
 	if c.Value == nil {
 		return in.zero(c.Type())
 	}
